@@ -71,6 +71,7 @@ type event struct {
 	Expect []map[string]int `json:"expect"`
 	Driver int              `json:"driver"`
 	N      int              `json:"n"`
+	Trunc  bool             `json:"trunc"` // Final: the process stopped executing jobs early (resource guard, see maxG)
 	Snap   []gRec           `json:"snap"`
 }
 
@@ -312,13 +313,20 @@ func TestVerifC09(t *testing.T) {
 	perExec := time.Duration(envInt("VERIF_SETTLE_MS", 60)) * time.Millisecond
 	finalEvery := envInt("VERIF_FINAL_EVERY", 150)
 	sinceFinal := 0
-	final := func() {
+	final := func(trunc bool) {
 		quiesce(time.Duration(envInt("VERIF_STILL_MS", 400))*time.Millisecond, 20*time.Second)
-		emit(event{Ev: "Final", N: runtime.NumGoroutine(), Snap: snapshot()})
+		emit(event{Ev: "Final", N: runtime.NumGoroutine(), Trunc: trunc, Snap: snapshot()})
 		sinceFinal = 0
 	}
+	// resource guard, not a verdict: a process that has accumulated this many goroutines stops taking jobs (its log so far
+	// is complete and is judged like any other); the check treats a truncated log without a reported goroutine as no verdict
+	maxG := envInt("VERIF_MAX_GOROUTINES", 700)
+	truncated := false
 	ctx := &cli.Context{}
 	for ji, j := range jobs {
+		if truncated {
+			break
+		}
 		for rep := 0; rep < j.Reps; rep++ {
 			before := runtime.NumGoroutine()
 			var err error
@@ -340,12 +348,16 @@ func TestVerifC09(t *testing.T) {
 			emit(event{Ev: "Exec", Job: ji, Rep: rep, Path: j.Path, Key: j.Key, Kind: kind, Err: text, Marks: cp.take(),
 				HasExp: j.HasExp, Expect: j.Expect, N: runtime.NumGoroutine(), Snap: snapshot()})
 			sinceFinal++
+			if runtime.NumGoroutine() > maxG {
+				truncated = true
+				break
+			}
 		}
-		if sinceFinal >= finalEvery {
-			final()
+		if sinceFinal >= finalEvery && !truncated {
+			final(false)
 		}
 	}
-	final()
+	final(truncated)
 	if err := w.Flush(); err != nil {
 		t.Fatal(err)
 	}
